@@ -706,6 +706,109 @@ def stream_ops(run, m, F, E):
     return n
 
 
+def writer_result(run, m, F, E):
+    """R17.7: what ST::format / format_latin_1 return is to_string(utf8, validation) of the bytes the writer accumulated.  The string
+    writer is taken through two-step histories - constructor, then append_char(ch, count) with ch >= 0x80, or append(data, 1) with
+    data[0] >= 0x80 - and its to_string(false, assume_valid) / to_string(true, check_validity) interpreted in the resulting state of
+    the writer's own fields: every returning path must hand exactly those arguments to string_stream::to_string of its stream.  A
+    path that returns something else (a shortcut guarded by a field the history left stale) returns the raw bytes: Latin-1 text is not
+    transcoded, UTF-8 not validated."""
+    def fn(prefix):
+        for name in F.lib:
+            if m.func(name).dem.startswith(prefix):
+                return m.func(name)
+        return None
+    ctor = fn('_ST_PRIVATE::string_format_writer::string_format_writer(char const*)')
+    apc = fn('_ST_PRIVATE::string_format_writer::append_char(char, unsigned long)')
+    app = fn('_ST_PRIVATE::string_format_writer::append(char const*, unsigned long)')
+    tos = fn('_ST_PRIVATE::string_format_writer::to_string(bool, ST::utf_validation_t)')
+    if not (ctor and apc and app and tos):
+        run.ob('R17.7', 'string_format_writer', None, 'constructor / append / append_char / to_string of the string writer not all found', loc='')
+        return 0
+
+    def extra(h, I, st, inst, d, args):
+        if d.startswith('ST::string_stream::to_string(bool, ST::utf_validation_t)'):
+            st.ev('ss-to_string', inst, list(args))
+            return [(st, None)]
+        if d.startswith('ST::string::from_validated(') or re.match(r'^ST::string::string\(', d) or d.startswith('ST::string::from_utf8(') or d.startswith('ST::string::from_latin_1('):
+            st.ev('other-result', inst, d.split('(')[0])
+            return [(st, None)]
+        if d.startswith('ST::format_writer::format_writer(') or d.startswith('ST::string_stream::string_stream('):
+            return [(st, None)]
+        if d.startswith('ST::string_stream::raw_buffer(') or d.startswith('ST::string_stream::size('):
+            return [(st, I.fresh_ptr(st, 'raw') if 'raw_buffer' in d else I.fresh_int(st, 64, 'sssize'))]
+        return None
+    n = 0
+    for hist in ('append_char', 'append'):
+        for (utf8, val, label) in ((0, 'assume_valid', 'to_string(false, assume_valid)'), (1, 'check_validity', 'to_string(true, check_validity)')):
+            n += 1
+            modes = m.enums.get('ST::utf_validation_t') or {}
+            if val not in modes:
+                run.ob('R17.7', label, None, 'enumerator %s not found' % val, disc=hist, loc=fn_loc(tos))
+                continue
+            I = Interp(m, F, E, SinkHooks(m, extra))
+            st = State()
+            w = Obj('ext', None)
+            w.lazy = True
+            st.objs['W'] = w
+            fm = Obj('ext', None)
+            fm.lazy = True
+            st.objs['FMT'] = fm
+            probs, und, nret = [], [], 0
+            try:
+                states = [o.st for o in I.run(I.start(ctor, [PtrV('W'), PtrV('FMT')], st)) if o.kind == 'ret']
+                nxt = []
+                for s1 in states:
+                    s1.frames, s1.events = [], []
+                    if hist == 'append_char':
+                        ch = I.fresh_int(s1, 8, 'ch', lo=0x80, hi=0xFF)
+                        cnt = I.fresh_int(s1, 64, 'count', lo=1, hi=MAXLEN)
+                        outs = I.run(I.start(apc, [PtrV('W'), ch, cnt], s1))
+                    else:
+                        d = Obj('ext', Lin.const(1))
+                        d.lazy = True
+                        s1.objs['DATA1'] = d
+                        b0 = I.load(s1, None, PtrV('DATA1'), 'i8', 1)
+                        if isinstance(b0, IntV):
+                            s1.assume_ge0(I.as_u(s1, b0) - 0x80)
+                        outs = I.run(I.start(app, [PtrV('W'), PtrV('DATA1'), IntV(64, Lin.const(1), 'u')], s1))
+                    nxt += [o.st for o in outs if o.kind == 'ret' and not any(e[0] == 'widen' for e in o.st.events)]
+                    if any(o.kind == 'ret' and any(e[0] == 'widen' for e in o.st.events) for o in outs):
+                        und.append('%s abstracts a loop: the state it leaves is not exact' % hist)
+                for s2 in nxt:
+                    s2.frames, s2.events = [], []
+                    r = Obj('ext', None)
+                    r.lazy = True
+                    s2.objs['RESULT'] = r
+                    outs = I.run(I.start(tos, [PtrV('RESULT'), PtrV('W'), IntV(1, Lin.const(utf8), 'u'), IntV(32, Lin.const(modes[val]), 'u')], s2))
+                    for o in outs:
+                        if o.kind != 'ret':
+                            continue
+                        nret += 1
+                        ev = [e for e in o.st.events if e[0] == 'ss-to_string']
+                        oth = [e for e in o.st.events if e[0] == 'other-result']
+                        if len(ev) == 1 and not oth:
+                            a = ev[0][2]
+                            okargs = len(a) >= 4 and isinstance(a[2], IntV) and o.st.is_eq0(I.as_u(o.st, a[2]) - utf8) is True and \
+                                isinstance(a[3], IntV) and o.st.is_eq0(I.as_u(o.st, a[3]) - modes[val]) is True
+                            if not okargs:
+                                probs.append('%s hands string_stream::to_string other arguments than it was given' % label)
+                        elif oth and not ev:
+                            probs.append('after the constructor and %s the writer answers %s through %s instead of to_string of its stream: the bytes are '
+                                         'returned as they are - %s (a shortcut guarded by a field that %s leaves as the constructor set it)' %
+                                         ('append_char(ch >= 0x80, count)' if hist == 'append_char' else 'append(data, 1) with data[0] >= 0x80', label,
+                                          oth[0][2], 'Latin-1 text is not transcoded to UTF-8' if not utf8 else 'invalid UTF-8 is not rejected', hist))
+                        else:
+                            und.append('%s: result not of the form to_string of the stream (%d / %d)' % (label, len(ev), len(oth)))
+            except Exception as e:
+                und.append('not interpreted: %s' % (str(e)[:80],))
+            if nret == 0 and not und:
+                und.append('no returning path explored')
+            run.ob('R17.7', label, False if probs else (None if und else True), probs[0] if probs else (und[0] if und else
+                   'every path returns to_string(%s) of the stream (%d paths)' % (label.split('(', 1)[1].rstrip(')'), nret)), disc='after ' + hist, loc=fn_loc(tos))
+    return n
+
+
 def check(run):
     m = run.module()
     F = run.facts()
@@ -718,6 +821,7 @@ def check(run):
     run.floor('append_char overrides', append_chars(run, m, F, E), 6)
     run.floor('format entry points', entries(run, m, F, E), 20)
     run.floor('stream operators', stream_ops(run, m, F, E), 8)
+    run.floor('string writer histories', writer_result(run, m, F, E), 4)
     for r in ('R17.1', 'R17.2', 'R17.3', 'R17.4'):
         for o in [o for o in run.obs if o['rule'] == r][:2]:
             run.sample(dict(rule=o['rule'], subject=o['subject'], verdict=o['verdict'], detail=o['detail'][:160]))
